@@ -151,15 +151,19 @@ func handleShareMemoryByFilePath(s *Session, hdr header) error {
 
 // todo with stream'timeout
 func handleFallbackData(s *Session, h header, buf []byte) (int, bool, error) {
+	const fallbackDataHeader = 8
 	eventLen := int(h.Length())
 	payloadLen := eventLen - headerSize
+	// fallback data layout:  eventHeader | seqID | status | payload
+	// an event too short to hold seqID and status is malformed
+	if payloadLen < fallbackDataHeader {
+		return headerSize, false, ErrInvalidMsgType
+	}
 	if len(buf) < payloadLen {
 		return 0, true, nil
 	}
 	data := make([]byte, payloadLen)
 	copy(data, buf[:payloadLen])
-	const fallbackDataHeader = 8
-	// fallback data layout:  eventHeader | seqID | status | payload
 	seqID := binary.BigEndian.Uint32(data[:4])
 	// now the first byte of status is streamState, and the other byte of status is undefined .
 	status := binary.BigEndian.Uint32(data[4:8]) & 0xff
